@@ -886,6 +886,9 @@ const PLAIN_VOCAB: &[&str] = &[
     "r2d2", "caf\u{e9}",
     // multi-byte words (byte length and display width differ in both directions) and words that END in a prefix character
     "\u{e9}\u{e9}\u{e9}", "cr\u{e8}me", "\u{fc}ber", "na\u{ef}ve", "\u{65e5}\u{672c}\u{8a9e}", "\u{4f60}\u{597d}", "\u{1f602}", "e\u{301}e\u{301}", "C++", "C#", "src/", "x*", "a-", "ok>",
+    // words that END in a whitespace character other than ' ' (legal words for the ASCII separator), and pure-ASCII words
+    // containing DEL (one byte, no column)
+    "aa\u{a0}", "b\u{3000}", "c\u{2003}", "dd\t", "ab\u{7f}", "\u{7f}x", "a\u{7f}\u{7f}b",
 ];
 
 fn gen_plain_para(r: &mut Rng, maxw: usize) -> String {
